@@ -164,7 +164,13 @@ func (r *gatewayController) buildCanaryHeaderHttpRoutes(rules []gatewayv1beta1.H
 	for i := range rules {
 		rule := rules[i]
 		if _, canaryRef := getServiceBackendRef(rule, r.conf.CanaryService); canaryRef != nil {
-			continue
+			// a rule routing to nothing but the canary service was generated by a previous call and
+			// is rebuilt below; a rule of the user that still carries the canary backend of a
+			// previous weight step must be kept (without the canary backend)
+			filterOutServiceBackendRef(&rule, r.conf.CanaryService)
+			if len(rule.BackendRefs) == 0 {
+				continue
+			}
 		}
 		desired = append(desired, rule)
 		if _, stableRef := getServiceBackendRef(rule, r.conf.StableService); stableRef == nil {
